@@ -130,6 +130,8 @@ REPLACE_QUICK = [
     ('concat[replace(orig ab,[beyond end X/c]),orig d b]', CC(RP(O('ab'), (Q, Q, 'X\nc')), O('d', 'b.js'))),
 ]
 HISTORY_QUICK = [
+    ('history:replace(orig abcd,[sym X];source;clone) - a clone taken after an observation', RP(O('abcd'), (Q, Q, 'X', None, 1, ['source', 'clone']))),
+    ('history:replace(rawstr abcd,[2,3 X],[sym Y];size;clone;[ins sym Z])', RP(RS('abcd'), (2, 3, 'X'), (Q, Q, 'Y', None, 1, ['size', 'clone']), (Q, 'S', 'Z'))),
     ('history:replace(orig abcd,[ins sym B];source;[ins sym A];source;[ins sym C])', RP(O('abcd'), (Q, 'S', 'B', None, 1, ['source']), (Q, 'S', 'A', None, 1, ['source']), (Q, 'S', 'C'))),
     ('history:replace(rawstr abc,[sym B];size;[sym A])', RP(RS('abc'), (Q, Q, 'B', None, 1, ['size']), (Q, Q, 'A'))),
 ]
@@ -532,6 +534,23 @@ def eq_jobs(tier, seed):
     return jobs
 
 
+SMY = dict(SMX, name='y.js')
+STABLE_QUICK = [
+    ('cached(sms) pair differing only in the (unhashed) name, hash on both', CA(SMX), CA(SMY), False, ['hash'], ['hash']),
+    ('cached(sms) name pair through dyn, hash on both', CA(SMX), CA(SMY), True, ['hash'], ['hash']),
+    ('cached(orig) different texts, hash + map on both', CA(O('a?')), CA(O('b?')), False, ['hash', 'map1'], ['hash', 'c1f0']),
+    ('cached(orig) same ingredients, hash on one, stream on the other', CA(O('a?')), CA(O('a?')), False, ['hash'], ['c1f0']),
+    ('cached(concat) vs cached(concat) one child apart, hash on both', CA(CC(O('a?'), RS('!'))), CA(CC(O('a?'), RS('!'), RS(''))), False, ['hash'], ['hash']),
+    ('replace pair differing in a name, source + hash on both', RP(O('abcd'), (2, 3, 'X', 'n'), (0, 1, 'Y')), RP(O('abcd'), (2, 3, 'X', 'm'), (0, 1, 'Y')), False, ['source', 'hash'], ['hash']),
+    ('rawbuf same bytes, source on one', RB('!a'), RB('!a'), False, ['source'], []),
+    ('sms pair differing only in the name, map on both', SMX, SMY, False, ['map1'], ['hash']),
+]
+
+
+def stable_jobs(tier, seed):
+    return [J('stable:' + n, 'jobs.eqhash:eq_stable_job', dict(tree_a=a, tree_b=b, dyn=d, history_a=ha, history_b=hb), timeout=600) for n, a, b, d, ha, hb in STABLE_QUICK]
+
+
 def neq_jobs(tier, seed):
     jobs = []
     for name, (a, b, dyn) in NEQ_QUICK:
@@ -731,7 +750,7 @@ PROPS = {
     'C11': dict(jobs=[tree_jobs(['C11']), replace_jobs(['C11']), sms_jobs(['C11']), combined_jobs(['C11']), cached_jobs(['C11']), codec_c11], bounds=RTREE_BOUNDS, outside=TREE_OUTSIDE, assumptions=TREE_ASSUME),
     'C13': dict(jobs=[c13_jobs], bounds={'quick': 'catalog lib/props.py:C13_QUICK: nested boxed ConcatSource groupings (depth <= 3) vs the flat concatenation; single-child / empty-children ConcatSource, boxing and a ReplaceSource without replacements vs the wrapped source; <= 4 symbolic bytes; text, per-position attribution through map() (both column settings) and through the chunk stream, end info; a CachedSource with a warm cache inside a ConcatSource vs the same tree without the cache, with rope.rs itself interpreted', 'thorough': 'as quick plus C13_THOROUGH: 5 symbolic bytes, depth 4, SourceMapSource / ReplaceSource / CachedSource children inside nested groups, several empty children in a row, doubly boxed ReplaceSource, alphabet with { and tab'},
                 outside=TREE_OUTSIDE + '; typed nesting flattened by ConcatSource::new/add and CachedSource wrappers until their stages are registered', assumptions=TREE_ASSUME),
-    'C14': dict(jobs=[eq_jobs, neq_jobs], bounds={'quick': 'catalogs EQ_QUICK (13 shapes of every source type, symbolic bytes, built twice from the same ingredients; typed and through dyn Source; observer history of 1-2 solver-picked calls from {source, size, map, stream, hash, buffer, rope} applied to ONE of the two) and NEQ_QUICK (one-edit pairs): ==, == in the other direction, recorded Hash streams, clone == original with equal stream and equal source(); for equal values every observer (source, size, map, chunk stream incl. announced contents) must answer identically on the value with a history and on the untouched one', 'thorough': 'as quick plus one more solver-picked observer call in every history'},
+    'C14': dict(jobs=[eq_jobs, neq_jobs, stable_jobs], bounds={'quick': 'catalogs EQ_QUICK (13 shapes of every source type, symbolic bytes, built twice from the same ingredients; typed and through dyn Source; observer history of 1-2 solver-picked calls from {source, size, map, stream, hash, buffer, rope} applied to ONE of the two) and NEQ_QUICK (one-edit pairs): ==, == in the other direction, recorded Hash streams, clone == original with equal stream and equal source(); for equal values every observer (source, size, map, chunk stream incl. announced contents) must answer identically on the value with a history and on the untouched one', 'thorough': 'as quick plus one more solver-picked observer call in every history'},
                 outside='histories longer than 2; a BoxSource inside a BoxSource is identified with its content (the type-id contract looks through Arc layers); hash collisions of the final 64-bit hasher', assumptions=TREE_ASSUME + ['Hash is observed through a recording Hasher (write calls of std impls are contracts: str = bytes + terminator as one record)', 'TypeId contract: equal iff same concrete type']),
     'C20': dict(jobs=[neq_jobs, eq_jobs], bounds={'quick': 'catalog NEQ_QUICK: 37 one-edit pairs (leaf text / name / type at equal text, every field of a replacement incl. order of equal keys, presence of a replacement, every part of an attached map, inner map, remove flag, original source, ConcatSource child / order / prefix / cut, wrapper) - the recorded hasher streams must differ and == must be false, typed and through dyn Source, also after one solver-picked observer call; reproducibility: EQ_QUICK (equal ingredients and any observer history give the identical stream)', 'thorough': 'as quick plus two solver-picked observer calls before the comparison and the pairs compared in the other direction'},
                 outside='collisions of the final 64-bit hasher (excluded by the property); edits at depth > 2; the SourceMapSource name (deliberately not hashed)', assumptions=TREE_ASSUME + ['Hash is observed through a recording Hasher; nothing but the recorded write calls can influence a Hasher, so equal streams mean equal hashes in every process']),
